@@ -3,11 +3,11 @@
 package main
 
 import (
-	"os"
 	"encoding/binary"
 	"encoding/json"
 	"fmt"
 	"io"
+	"os"
 	"reflect"
 	"strings"
 	"time"
@@ -404,9 +404,17 @@ func traceString(s *sched.Scheduler, max int) string {
 }
 
 func checkC20(c *ev.Ctx) {
-	c.Rule("engine E2 on the real shimagent.Server (Wait/Broadcast) and the real yubiagent server: level 1 = W waiter threads + S broadcaster threads over codes {5,11,39,40,255}: every assignment for (W,S) in {(1,1),(2,1),(1,2)} with all interleavings (unbounded), (2,2),(3,1),(3,2) over codes {5,11} with preemption bound 2 (thorough 3); level 2 = clients on scheduler-visible pipes, one ServeAgent thread per connection, waiters send wait requests and senders send list/add-hardware-certificate/wait/remove-all requests (two scenarios with a further connection whose signature request hangs in the underlying agent for ever, holding the shim's lock), preemption bound 2 and at most 3 departures from the canonical lowest-id-first order at any branch (thorough: 3 and 4); level 2 also as a complete sweep awaited code 0..39 x other request code 0..40,255 in canonical order, and with a thread that uses the server's shim object directly (6 call sequences of lock / unlock / close / remove-all incl. refused ones) while clients wait; level 3 = all 256 codes sequentially. Oracle on the recorded trace: released => a broadcast of that code after registration; a matching request after registration => released; codes >= 40 never register; after a clean-up broadcast every thread finishes. states = executions (complete interleavings), transitions = scheduling events. non-trivial = execution in which a waiter registered; distinct by (scenario, schedule)")
+	c.Rule("engine E2 on the real shimagent.Server (Wait/Broadcast) and the real yubiagent server: level 1 = W waiter threads + S broadcaster threads over codes {5,11,39,40,255}: every assignment for (W,S) in {(1,1),(2,1),(1,2)} with all interleavings (unbounded), (2,2),(3,1),(3,2) over codes {5,11} with preemption bound 2 (thorough 3); level 2 = clients on scheduler-visible pipes, one ServeAgent thread per connection, waiters send wait requests and senders send list/add-hardware-certificate/wait/remove-all requests (two scenarios with a further connection whose signature request hangs in the underlying agent for ever, holding the shim's lock), preemption bound 2 and at most 3 departures from the canonical lowest-id-first order at any branch (thorough: 3 and 4); level 2 also as a complete sweep awaited code 0..39 x other request code 0..40,255 in canonical order, and with a thread that uses the server's shim object directly (6 call sequences of lock / unlock / close / remove-all incl. refused ones) while clients wait; level 2 and level 1 also with waiter-count profiles (1..8 clients, thorough ..33, on one code plus one on the adjacent code, both registration and request orders, canonical schedule); level 3 = all 256 codes sequentially. A small black-box real-time pass on real goroutines always runs as a declared side pass (3 scenarios); when the scheduler cannot drive the implementation (a thread blocks on something that is not a hooked operation: sched.Stall) the exploration is abandoned, the result is marked not exhaustive and the full real-time pass (208 scenarios) decides what black-box observation can decide. Oracle on the recorded trace: released => a broadcast of that code after registration; a matching request after registration => released; codes >= 40 never register; after a clean-up broadcast every thread finishes. states = executions (complete interleavings), transitions = scheduling events. non-trivial = execution in which a waiter registered; distinct by (scenario, schedule)")
 	c.Assume("condition variable i of the shim belongs to message code i (ids are assigned in creation order; checked by the registers-on-wrong-code oracle)", "vsync.Cond has the semantics of sync.Cond without spurious wake-ups (litmus-tested)")
 	if c.ReplayCase != nil {
+		var rt c20RTCase
+		if json.Unmarshal(c.ReplayCase, &rt); rt.RealTime {
+			vsync.Sequential.Store(false)
+			if key, desc := c20RTRun(rt); key != "" {
+				c.Violation(key, desc, rt)
+			}
+			return
+		}
 		var k c20Case
 		json.Unmarshal(c.ReplayCase, &k)
 		var s *sched.Scheduler
@@ -430,6 +438,32 @@ func checkC20(c *ev.Ctx) {
 		}
 		return
 	}
+	if st := stallGuard(func() { c20Scheduled(c) }); st != nil {
+		// the scheduler cannot drive this implementation: say so, and decide what can be decided by black-box observation
+		c.Cap("scheduler stalled, exploration abandoned: " + st.Error())
+		c.Set("scheduler_stall", st.Error())
+		c20RealTime(c, true)
+		return
+	}
+	c20RealTime(c, false)
+}
+
+// stallGuard runs f; when an execution under the scheduler stalls (sched.Stall), f is abandoned and the stall returned.
+func stallGuard(f func()) (st *sched.Stall) {
+	defer func() {
+		if r := recover(); r != nil {
+			if x, ok := r.(sched.Stall); ok {
+				st = &x
+				return
+			}
+			panic(r)
+		}
+	}()
+	f()
+	return nil
+}
+
+func c20Scheduled(c *ev.Ctx) {
 	// level 3: every code, sequentially
 	for code := 0; code < 256; code++ {
 		k := c20Case{Level: 1, Waiters: []int{code}, Note: "level 3: single waiter"}
@@ -515,6 +549,36 @@ func checkC20(c *ev.Ctx) {
 	for _, direct := range [][]string{{"Lock", "Close"}, {"Lock", "RemoveAll", "UnlockWrong"}, {"Lock", "Unlock"}, {"Close"}, {"RemoveAll", "List"}, {"Lock", "Add", "Close", "Unlock"}} {
 		c20Explore(c, c20Case{Level: 2, Waiters: []int{11}, Direct: direct}, 1, d2)
 		c20Explore(c, c20Case{Level: 2, Waiters: []int{22, 19}, Direct: direct}, 1, d2)
+	}
+	// waiter-count profiles: n clients on one code plus one on the adjacent code, both registration orders, both request
+	// orders, canonical schedule (level 1 and through the serving loop): whatever table holds the waiters must keep the
+	// codes apart however many wait on one of them
+	{
+		repn := func(code, n int) []int {
+			var o []int
+			for i := 0; i < n; i++ {
+				o = append(o, code)
+			}
+			return o
+		}
+		ns := []int{1, 2, 3, 4, 5, 6, 8}
+		if c.Thorough() {
+			ns = append(ns, 9, 12, 16, 17, 33)
+		}
+		np := 0
+		for _, p := range [][2]int{{32, 33}, {33, 32}, {17, 18}, {1, 0}, {38, 39}, {39, 38}} {
+			for _, n := range ns {
+				for _, ws := range [][]int{append([]int{p[1]}, repn(p[0], n)...), append(repn(p[0], n), p[1])} {
+					for _, rs := range [][]int{{p[1], p[0]}, {p[0], p[1]}} {
+						for lvl := 1; lvl <= 2; lvl++ {
+							c20Explore(c, c20Case{Level: lvl, Waiters: ws, Senders: rs, Note: "sweep"}, 0, 0)
+							np++
+						}
+					}
+				}
+			}
+		}
+		c.Set("waiter_count_profiles", np)
 	}
 	// two-dimensional sweep through the serving loop: every awaited code 0..39 against every OTHER request code 0..40 and
 	// 255, canonical order (the waiter registers, then the request arrives): a request releases exactly the waiters of its
